@@ -95,17 +95,39 @@ Theorem seam_ok_spec : forall a b,
 Proof. exact seam_ok_cf. Qed.
 Print Assumptions seam_ok_spec.
 
-(** a clean seam-safe text has no mixed cluster, and its non-whitespace clusters are the
-    clusters of the text without whitespace (SeamStable for deleting all spaces) *)
-Theorem seam_safe_no_mixed : forall s,
-  C11_Model.cleansb s = true -> seam_safe s = true -> no_mixedb s = true.
-Proof. exact ss_no_mixed. Qed.
+(** ** SeamStable as a theorem about [segment]: a list of non-empty clusters re-segments to
+    itself exactly when every element is a cluster on its own and every two neighbours are
+    [glued] (a boundary decided inside the left neighbour) *)
+Theorem segment_break_split : forall s b v,
+  s <> [] -> break_after s b = true -> segment (s ++ b :: v) = segment s ++ segment (b :: v).
+Proof. exact C10_Stable.segment_break_split. Qed.
+Print Assumptions segment_break_split.
+
+Theorem stable_iff : forall L : list cluster,
+  Forall (fun c => c <> []) L ->
+  (segment (concat L) = L <-> forallb is_cluster L = true /\ chain L = true).
+Proof. exact C10_Stable.stable_iff. Qed.
+Print Assumptions stable_iff.
+
+(** [seam_safe s] (no mixed cluster; across every whitespace cluster the neighbours are [glued])
+    is, for a whitespace-clean text, exactly "the non-whitespace clusters of the text are the
+    clusters of the text without whitespace" — SeamStable for deleting spaces *)
+Theorem seam_safe_no_mixed : forall s, seam_safe s = true -> no_mixedb s = true.
+Proof. exact seam_safe_no_mixed_l. Qed.
 Print Assumptions seam_safe_no_mixed.
 
-Theorem seam_safe_strip : forall s,
-  C11_Model.cleansb s = true -> seam_safe s = true -> strip (segment s) = segment (strip_cp s).
-Proof. exact ss_strip. Qed.
-Print Assumptions seam_safe_strip.
+Theorem seam_safe_iff : forall s,
+  C11_Model.cleansb s = true ->
+  (seam_safe s = true <-> strip (segment s) = segment (strip_cp s)).
+Proof. exact seam_safe_iff_l. Qed.
+Print Assumptions seam_safe_iff.
+
+(** the condition on categories alone — every word boundary (last code point of a word, first of
+    the next) is [seam_ok] — is sufficient *)
+Theorem seam_safe_cf_safe : forall s,
+  C11_Model.cleansb s = true -> seam_safe_cf s = true -> seam_safe s = true.
+Proof. exact seam_safe_cf_safe_l. Qed.
+Print Assumptions seam_safe_cf_safe.
 
 (** the string-level premise of the property gives the cluster-level premise ... *)
 Theorem seam_safe_premise : forall f t,
@@ -127,10 +149,14 @@ Proof. exact operations_repair_roundtrip_u_l. Qed.
 Print Assumptions operations_repair_roundtrip_u.
 
 (** the domain of that theorem and the KF1 class (string-level premise, no mixed cluster,
-    different non-whitespace cluster lists) are disjoint *)
+    different non-whitespace cluster lists) are disjoint: a KF1 pair has a text that is not seam-safe *)
 Theorem kf1_outside : forall f t, dom_C10 f t = true -> kf1b f t = false.
 Proof. exact kf1_outside_l. Qed.
 Print Assumptions kf1_outside.
+
+Theorem kf1_not_safe : forall f t, kf1b f t = true -> (seam_safe f && seam_safe t)%bool = false.
+Proof. exact kf1_not_safe_l. Qed.
+Print Assumptions kf1_not_safe.
 
 (** the input built by the model alone (both cluster lists, the class flag and the seam flag)
     passes the executable statement, the segmentation clause and the cross-check of [agree] *)
@@ -151,6 +177,12 @@ Example kf1_not_seam_safe :
   /\ seam_safe [2325;2381;32;2359]%N = false /\ seam_safe [101;32;769]%N = false
   /\ seam_safe [1536;32;97]%N = false /\ seam_safe [128105;8205;32;128187]%N = false
   /\ kf1b [127465;32;127466]%N [127465;127466]%N = true.
+Proof. vm_compute. repeat split; reflexivity. Qed.
+(** a complete flag, a space, a third regional indicator: the boundary is decided inside the
+    flag — seam-safe although RI | RI is not a context-free boundary *)
+Example seam_safe_in_context :
+  seam_safe [127462;127463;32;127464]%N = true /\ seam_safe_cf [127462;127463;32;127464]%N = false
+  /\ dom_C10 [127462;127463;32;127464]%N [127462;127463;127464]%N = true.
 Proof. vm_compute. repeat split; reflexivity. Qed.
 (** letters, a consonant after a letter, an emoji after a letter, Hangul syllable | letter: seam-safe *)
 Example seam_ok_witness :
